@@ -465,7 +465,7 @@ def iter_attrs(n):
         for c in n.children:
             for a in iter_attrs(c): yield a
 
-NONTRIV = {'must-escape', 'attr-escape', 'char-ref-needed', 'cdata-split', 'entity-ref', 'doctype', 'needs-fixup', 'cdata', 'defaulted-attr'}
+NONTRIV = {'big-run', 'must-escape', 'attr-escape', 'char-ref-needed', 'cdata-split', 'entity-ref', 'doctype', 'needs-fixup', 'cdata', 'defaulted-attr'}
 
 def ser_options(draw, encs, whole_only=False, version='1.0'):
     enc = draw(st.sampled_from(encs))
@@ -493,6 +493,17 @@ def parse_case_strategy(draw, encs):
     ns = draw(st.booleans()); ere = draw(st.booleans())
     s = ser_options(draw, encs, version=d.version)
     sub = draw(st.integers(0, 7))
+    big = draw(gen_big(odds=11))
+    if big:
+        where, n, cls, pos = big
+        toks = [(c, c) for c in big_run(n, cls)]
+        if where == 'A': d.root.attrs = [a for a in d.root.attrs if a.qname != 'big'] + [xm.At('big', toks)]
+        else:
+            node = {'T': xm.Tx, 'CD': xm.CD, 'C': xm.Cm}.get(where)
+            node = node(toks) if node else xm.PI('t', toks, ' ')
+            d.root.children.insert(min(pos, len(d.root.children)), node)
+            d.root.lex['empty'] = False
+        d.big = big
     return d, ns, ere, s, sub
 
 def markup_strings(d, split):
@@ -565,6 +576,27 @@ def xml10_char_ok(s):
         i += 1
     return True
 
+# ---- size classes: one long run of characters that need no escaping, so that a single formatter call has to cross its internal buffer
+# (XMLFormatter::fTmpBuf is 16 KiB: > 16384 ASCII, > 8192 two-byte, > 5461 three-byte, > 4096 four-byte characters in UTF-8; > 8192
+# UTF-16 units in UTF-16 output, i.e. every writeToString) and MemBufFormatTarget / DOM string growth thresholds
+BIG_LENGTHS = [20000, 9001, 5462, 40000, 8193, 12000, 16385, 5000]     # (Hypothesis favours the first entries)
+BIG_CLASSES = ['three', 'ascii', 'supp', 'two']
+def big_run(n, cls):
+    """deterministic, non-periodic string of n characters of one encoding-size class (no markup, no white space, no '-' '?' ']')"""
+    if cls == 'ascii':
+        out = []; k = 0; i = 0
+        while k < n:
+            t = '%x.' % (i * i + 7 * i); out.append(t); k += len(t); i += 1
+        return ''.join(out)[:n]
+    if cls == 'two': return ''.join(chr(0xC0 + ((i * i + i // 7) % 0x180)) for i in range(n)).replace('\u00d7', 'x').replace('\u00f7', 'y')
+    if cls == 'three': return ''.join(chr(0x4E00 + ((i * i + i // 5) % 5000)) for i in range(n))
+    return ''.join(chr(0x10000 + ((i * 7 + i * i // 3) % 4000)) for i in range(n))
+
+@st.composite
+def gen_big(draw, odds=7):
+    if draw(st.integers(0, odds)) != 0: return None
+    return (draw(st.sampled_from(['A', 'T', 'CD', 'C', 'PI', 'T', 'A'])), draw(st.sampled_from(BIG_LENGTHS)), draw(st.sampled_from(BIG_CLASSES)), draw(st.integers(0, 5)))
+
 MISC_ALPHA = [x for x in TEXT_ALPHA if '\r' not in x]     # CR inside comment/PI/CDATA cannot be written at all (no references there): not generated
 @st.composite
 def gen_string(draw, max_size=8, bad_ok=True, min_size=1, alpha=None):
@@ -616,10 +648,19 @@ def build_case_strategy(draw, encs):
                 else: el['children'].append({'k': 'PI', 't': draw(st.sampled_from(['t', 'pi-1', 'x.y', '\u00e9t'])), 'v': draw(gen_string(6, min_size=0, alpha=MISC_ALPHA)).lstrip(' \t\r\n')})
         return el
     root = gen_el(1, None)
+    big = draw(gen_big())
+    if big:
+        where, n, cls, pos = big
+        v = big_run(n, cls)
+        if where == 'A': root['attrs'] = [a for a in root['attrs'] if a[1] != 'big'] + [(None, 'big', None, v)]
+        else:
+            node = {'k': where, 'v': v}
+            if where == 'PI': node['t'] = 't'
+            root['children'].insert(min(pos, len(root['children'])), node)
     misc_before = [{'k': 'C', 'v': draw(gen_string(4, min_size=0, alpha=MISC_ALPHA))} for _ in range(draw(st.integers(0, 1)))]
     misc_after = [{'k': 'PI', 't': 't', 'v': draw(gen_string(4, min_size=0, alpha=MISC_ALPHA)).lstrip(' \t\r\n')} for _ in range(draw(st.integers(0, 1)))]
     standalone = draw(st.booleans())
-    return nsmode, s, root, misc_before, misc_after, standalone, excluded
+    return nsmode, s, root, misc_before, misc_after, standalone, excluded, big
 
 def build_build_case(nsmode, s, root, misc_before, misc_after, standalone, pre_excluded, stats=None):
     """-> (case | None, excluded-ids, labels)"""
@@ -890,12 +931,15 @@ def worker(ctx):
         for i in exl: st_.excluded_known[i] += 1
         labels = parse_labels(d, text, effective_enc(case), s)
         if 'namespaces' in labels and ns: labels.add('ns-on')
+        big = getattr(d, 'big', None)
+        if big: labels |= {'big-run', 'big:' + big[0], 'big:' + big[2], 'big:%d' % big[1]}
         ok, detail, info = run_case(case, ex)
         if labels & NONTRIV: st_.sample({'lane': 'parse', 'ser': case['ser'], 'doc': text[:300]}, limit=2)
         account(case, labels, ok, detail, info, [case['doc_b64'], case['feat'], case['ser']])
     def prop_build(c):
-        nsmode, s, root, mb, ma, sa, pre = c
+        nsmode, s, root, mb, ma, sa, pre, big = c
         case, excluded, labels = build_build_case(nsmode, s, root, mb, ma, sa, pre)
+        if big: labels |= {'big-run', 'big:' + big[0], 'big:' + big[2], 'big:%d' % big[1]}
         for i in set(excluded): st_.excluded_known[i] += 1
         if case is None: return
         ok, detail, info = run_case(case, ex)
